@@ -801,6 +801,56 @@ elif r:
     first = all(x[2] == 0 for x in r)
     chk.violation('udp.reverse->direct', f'datagram-lost:dual-stack-listener:{"+".join(fams)}-client', f'reverse listener bound to [::]: {len(r)} of 12 datagrams were not echoed to their sender: {r[:6]}', {'lost': [list(map(str, x)) for x in r]})
 
+# ---- a SOCKS5 upstream that holds its UDP clients to the address they announce (enforceUdpClient): what the socks
+#      CONNECTOR announces in its UDP ASSOCIATE must be where it will send from (or zeros), not the session's destination
+def run_enforce(first_listener):
+    qb = {k: free_port() for k in ('socks', 'api')}
+    pe = Proxy({'listeners': [{'name': 'socks', 'type': 'socks', 'bind': f"127.0.0.1:{qb['socks']}", 'enforceUdpClient': True}], 'connectors': [{'name': 'direct'}], 'rules': [{'target': 'direct'}],
+                'metrics': {'bind': f"127.0.0.1:{qb['api']}", 'ui': None}}, 'c10e')
+    pe.api_port = qb['api']
+    if not pe.start([qb['socks'], qb['api']]):
+        return 'no-start'
+    qa = {k: free_port() for k in ('ru', 'socks', 'api')}
+    pf = Proxy({'listeners': [{'name': 'rudp', 'type': 'reverse', 'protocol': 'udp', 'bind': f"127.0.0.1:{qa['ru']}", 'target': f'127.0.0.1:{origin.port}'}, {'name': 'socks', 'bind': f"127.0.0.1:{qa['socks']}"}],
+                'connectors': [{'name': 'c', 'type': 'socks', 'server': '127.0.0.1', 'port': qb['socks'], 'version': 5}], 'rules': [{'target': 'c'}],
+                'metrics': {'bind': f"127.0.0.1:{qa['api']}", 'ui': None}}, 'c10f')
+    pf.api_port = qa['api']
+    if not pf.start([qa['socks'], qa['api']]):
+        pe.stop()
+        return 'no-start'
+    try:
+        lost = 0
+        u = socket.socket(socket.AF_INET, socket.SOCK_DGRAM); u.bind(('127.0.0.1', 0)); u.settimeout(2.0)
+        ctrl = None
+        if first_listener == 'socks5':
+            ctrl, r = socks5_connect(qa['socks'], '0.0.0.0', 0, cmd=3, timeout=5)
+            if r['rep'] != 0 or len(r['reply']) < 10:
+                return 'association-refused'
+            to = ('127.0.0.1', struct.unpack('>H', r['reply'][8:10])[0])
+        else:
+            to = ('127.0.0.1', qa['ru'])
+        for i in range(3):
+            p_ = tagged(30, f'enforce-{first_listener}-{i}')
+            wire = (b'\0\0\0' + socks5_addr('127.0.0.1', origin.port) + p_) if first_listener == 'socks5' else p_
+            u.sendto(wire, to)
+            try:
+                d, _ = u.recvfrom(4000)
+            except OSError:
+                d = b''
+            if not d.endswith(b'R' + p_):
+                lost += 1
+        u.close()
+        if ctrl: ctrl.close()
+        return lost
+    finally:
+        pf.stop(); pe.stop()
+for fl in ('reverse', 'socks5'):
+    evals += 1
+    r = run_enforce(fl)
+    distinct.add(('enforce', fl, str(r)))
+    if isinstance(r, int) and r > 0:
+        chk.violation(f'udp.{fl}->socks5', 'datagram-lost:upstream-enforces-announced-client-address', f'{fl} -> socks connector -> a SOCKS5 listener with enforceUdpClient: {r} of 3 datagrams were not delivered', {'listener': fl, 'lost': r})
+
 # ---- the relay port of a SOCKS5 UDP association belongs to the client that first uses it: a datagram that another
 #      sender gets into the port's queue at the same moment is not part of that client's session
 def run_foreign(c):
